@@ -19,31 +19,35 @@ The theorems hold for **every execution** of that semantics (`texec P s acts = s
 arbitrary): every interleaving of the members, every delivery instant within the bound, every oracle
 (Go map iteration order) at every delivery. Phases may overlap — a COMMIT may overtake a PREPARE, a
 member may reach the PREPARE quorum before the PRE-PREPARE reaches it, a ROUND-CHANGE arriving late at
-a decided member makes it answer with a DECIDED (second example below) — so the untimed hypothesis
+a decided member makes it answer with a DECIDED (examples A, B, C below) — so the untimed hypothesis
 "each phase's messages are delivered before the next phase starts" of `good_round_r` is *not* needed
 any more: with bounded delay the thresholds are reached anyway (`Proofs/QbftTimed.lean`, `live`).
 
 Hypotheses, all explicit in the statements:
 * cluster: `P.R` duplicate-free, at least a quorum; `1 ≤ nodes`; FIFO limit `B + 4 ≤ fifo` where `B`
   bounds the ROUND-CHANGEs of earlier rounds per source (production: `fifo = 100`);
-* **synchronised start after the last fault** (`Poised`): the running members sit in round `ρ - 1`,
-  undecided, never prepared, with their round timers due at instants in `[E, E + σ]`; nothing is in
-  flight; what was delivered so far are null ROUND-CHANGEs of earlier rounds (the same multiset at
-  everybody). For `ρ = 2` this is the cluster right after all members were called within `σ` of each
-  other while the round-1 leader is down. Re-synchronisation from an arbitrary skew is not proved;
+* **synchronised start after the last fault**, in one of two forms:
+  `Poised1` — the running members have just been called (`start`, with their proposals) at instants
+  in `[E, E + σ]`, the PRE-PREPARE of the round-1 leader (if it runs) is in flight, nothing has been
+  delivered (`timed_good_round_1`, `timed_decides_from_start`);
+  `Poised` (round `ρ ≥ 2`) — the running members sit in round `ρ - 1`, undecided, never prepared, with
+  their round timers due at instants in `[E, E + σ]`; nothing is in flight; what was delivered so far
+  are null ROUND-CHANGEs of earlier rounds, the same multiset at everybody (what was sent before the
+  last fault may have been lost). A silent round re-establishes `Poised` for the next round
+  (`timed_silent_round`). Re-synchronisation from an arbitrary skew is not proved;
 * **skew below the minimal latency**: `σ ≤ lo` (with `lo = 0`: the timers are due at the same
-  instant — what the slot-aligned eager timer gives). It keeps a ROUND-CHANGE for round `ρ` from
-  reaching a member that has not entered `ρ` yet; the `F+1` rule that handles this case in the code is
-  not composed here;
+  instant — what the slot-aligned eager timer gives from the second round on). It keeps a message of
+  round `ρ` from reaching a member that has not entered `ρ` yet (resp. has not been called yet); the
+  `F+1` rule that handles this case in the code is not composed here;
 * the leader of the good round runs and has its proposal; `compare` succeeds (default config);
-* `σ + 4·hi < timeout ρ`: ROUND-CHANGE exchange, PRE-PREPARE, PREPARE, COMMIT (`c = 4`; for `ρ = 1`
-  three would do, `C04Timer.three_delays_fit`); for a silent round `σ + hi < timeout ρ` suffices;
+* `σ + 4·hi < timeout ρ`: ROUND-CHANGE exchange, PRE-PREPARE, PREPARE, COMMIT (`c = 4`; round 1 needs
+  only three, `C04Timer.three_delays_fit`, the uniform bound is not tightened for it); for a silent
+  round `σ + hi < timeout ρ` suffices;
 * no clock drift, exact timers.
 
-Not covered: a good round 1 (members entering by `start` instead of a timer: the model has the
-action, the invariant does not treat it — a round-1 leader that is down is covered, `ρ = 2`),
-re-synchronisation from arbitrary skew (`F+1` rule), earlier rounds that made partial progress
-(members prepared in a failed round), Byzantine members, `compare` failures.
+Not covered: re-synchronisation from arbitrary skew (`F+1` rule, `σ > lo`), earlier rounds that made
+partial progress (members prepared in a failed round), Byzantine members, `compare` failures, members
+without a proposal.
 -/
 import CharonV.Proofs.QbftTimed
 import CharonV.Props.C04Timer
@@ -71,9 +75,39 @@ theorem timed_good_round (P : TParams) (timeout : Nat → Nat) (harm : P.arm = r
     (E + σ + 4 * P.hi < s'.now →
       ∀ p ∈ P.R, GoodOutcome G.v G.ρ ((s'.node p).st, (s'.node p).outs)) := by
   have hy : Hyp P G ⟨E, σ, E + timeout G.ρ, σ, B⟩ :=
-    hyp_rel harm E σ B hR hn hρ hlead (fun _ => ⟨hinp, hv⟩) hσ hfifo (by omega)
+    hyp_rel harm E σ B hR hn (by omega) hlead (fun _ => ⟨hinp, hv⟩) hσ hfifo (by omega)
   have hwin : E + σ + 4 * P.hi < E + timeout G.ρ := by omega
-  have hinv := good_exec hy hl hq hwin acts (poised_rinv hρ hp) hs
+  have hinv := good_exec hy hl hq hwin acts (poised_rinv hp) hs
+  refine ⟨fun p hpR => ?_, fun hlate p hpR => ?_⟩
+  · obtain ⟨h1, h2, h3, _⟩ := outcome_of_rinv hinv hpR
+    refine ⟨h1, h2, ?_, h3⟩
+    cases hinv.mem p hpR with
+    | pend e a1 => rw [a1.mid.round]; omega
+    | act dl fd a1 => rw [a1.mid.round]; exact Nat.le_refl _
+    | dcd a1 => rw [a1.round]; exact Nat.le_refl _
+  · exact (outcome_of_rinv hinv hpR).2.2.1 (live hy hl hq hinv hlate p hpR)
+
+/-- **A good round 1** (the happy path). The running members (at least a quorum) have just been
+called at instants in `[E, E + σ]`, `σ ≤ lo` (`Poised1`: the PRE-PREPARE the round-1 leader sent at
+its call is in flight, nothing has been delivered); the leader runs and has its proposal;
+`σ + 4·hi < timeout 1` (three delays are what round 1 needs — PRE-PREPARE, PREPARE, COMMIT; the
+uniform bound of the proof is not tightened for round 1). Same conclusion as `timed_good_round`. -/
+theorem timed_good_round_1 (P : TParams) (timeout : Nat → Nat) (harm : P.arm = relTimer timeout)
+    (G : Rd) (hG : G.ρ = 1) (E σ B : Nat) (hR : P.R.Nodup) (hn : 1 ≤ P.d.nodes)
+    (hq : P.d.quorum ≤ P.R.length) (hlead : P.d.leader G.ρ = G.l) (hl : G.l ∈ P.R)
+    (hinp : P.inp G.l = G.v) (hv : G.v ≠ 0) (hσ : σ ≤ P.lo) (hfifo : B + 4 ≤ P.d.fifo)
+    (hfit : σ + 4 * P.hi < timeout G.ρ)
+    (s : TState) (hp : Poised1 P G ⟨E, σ, E + timeout G.ρ, σ, B⟩ s)
+    (acts : List TAct) (s' : TState) (hs : texec P s acts = some s') :
+    (∀ p ∈ P.R, noFault (s'.node p).outs = true ∧ (s'.node p).st.dead = false ∧
+      (s'.node p).st.round ≤ G.ρ ∧
+      ((s'.node p).st.qCommit ≠ [] → GoodOutcome G.v G.ρ ((s'.node p).st, (s'.node p).outs))) ∧
+    (E + σ + 4 * P.hi < s'.now →
+      ∀ p ∈ P.R, GoodOutcome G.v G.ρ ((s'.node p).st, (s'.node p).outs)) := by
+  have hy : Hyp P G ⟨E, σ, E + timeout G.ρ, σ, B⟩ :=
+    hyp_rel harm E σ B hR hn (by omega) hlead (fun _ => ⟨hinp, hv⟩) hσ hfifo (by omega)
+  have hwin : E + σ + 4 * P.hi < E + timeout G.ρ := by omega
+  have hinv := good_exec hy hl hq hwin acts (poised1_rinv hy hp) hs
   refine ⟨fun p hpR => ?_, fun hlate p hpR => ?_⟩
   · obtain ⟨h1, h2, h3, _⟩ := outcome_of_rinv hinv hpR
     refine ⟨h1, h2, ?_, h3⟩
@@ -101,8 +135,8 @@ theorem timed_silent_round (P : TParams) (timeout : Nat → Nat) (harm : P.arm =
     (G' : Rd) (hG' : G'.ρ = G.ρ + 1) (T' : Tm) (hE : T'.E = E + timeout G.ρ) (hσ' : T'.σ = σ)
     (hB : T'.B = B + 1) : Poised P G' T' s' := by
   have hy : Hyp P G ⟨E, σ, E + timeout G.ρ, σ, B⟩ :=
-    hyp_rel harm E σ B hR hn hρ hlead (fun h => absurd h hl) hσ hfifo (by omega)
-  have hinv := early_exec hy acts (poised_rinv hρ hp) hs h2
+    hyp_rel harm E σ B hR hn (by omega) hlead (fun h => absurd h hl) hσ hfifo (by omega)
+  have hinv := early_exec hy acts (poised_rinv hp) hs h2
   exact poised_next hy hl hinv h1 (Nat.le_of_lt h2) hG' hE hσ' hB
 
 /-- **Decision within one leader rotation, with the wall-clock bound.** Production leader function
@@ -137,9 +171,39 @@ theorem timed_decides_within_rotation (slot ty n fifo : Nat) (P : TParams)
   obtain ⟨m, hm, hmR, hsil⟩ := first_running_leader slot ty n hn P.R hRn hne ρ0
   refine ⟨m, hm, hmR, hsil, ?_⟩
   intro s hp acts s' hs
-  have hrot := rot_rel hd harm hR hn hq hinp hρ0 E0 σ B0 hσ (m := m) (by omega)
+  have hrot := rot_rel hd harm hR hn hq hinp (ρ0 := ρ0) (by omega) E0 σ B0 hσ (m := m) (by omega)
     (fun k hk => hfit (ρ0 + k) (by omega) (by omega)) hmR hsil
   exact rot_decides hrot hp acts hs
+
+/-- **Decision within one leader rotation after the instance was started** (`ρ0 = 1`): as
+`timed_decides_within_rotation`, from the cluster whose running members have just been called at
+instants in `[E0, E0 + σ]` (`Poised1`). If the round-1 leader runs, everybody has decided by
+`E0 + σ + 4·hi`; otherwise by `E0 + (timeout 1 + … + timeout m) + σ + 4·hi`, `1 + m` the first round
+whose leader runs. -/
+theorem timed_decides_from_start (slot ty n fifo : Nat) (P : TParams)
+    (hd : P.d = rotDef slot ty n fifo) (timeout : Nat → Nat) (harm : P.arm = relTimer timeout)
+    (hR : P.R.Nodup) (hRn : ∀ p ∈ P.R, p < n) (hn : 1 ≤ n) (hq : P.d.quorum ≤ P.R.length)
+    (hinp : ∀ p ∈ P.R, P.inp p ≠ 0) (E0 σ B0 : Nat) (hσ : σ ≤ P.lo) (hfifo : B0 + n + 3 ≤ fifo)
+    (hfit : ∀ ρ, 1 ≤ ρ → ρ < 1 + n → σ + 4 * P.hi < timeout ρ) :
+    ∃ m, m < n ∧ leaderFn slot ty (1 + m) n ∈ P.R ∧
+      (∀ k, k < m → leaderFn slot ty (1 + k) n ∉ P.R) ∧
+      ∀ (s : TState), Poised1 P (rotG slot ty n P.inp 1 0) (rotT timeout 1 E0 σ B0 0) s →
+      ∀ (acts : List TAct) (s' : TState), texec P s acts = some s' →
+        (∀ p ∈ P.R, noFault (s'.node p).outs = true ∧ (s'.node p).st.dead = false) ∧
+        (∀ p ∈ P.R, (s'.node p).st.qCommit ≠ [] →
+          GoodOutcome (P.inp (leaderFn slot ty (1 + m) n)) (1 + m) ((s'.node p).st, (s'.node p).outs)) ∧
+        (E0 + sumTimeouts timeout 1 m + σ + 4 * P.hi < s'.now →
+          ∀ p ∈ P.R,
+            GoodOutcome (P.inp (leaderFn slot ty (1 + m) n)) (1 + m) ((s'.node p).st, (s'.node p).outs)) := by
+  have hq1 : 1 ≤ P.d.quorum := quorum_pos P.d (by rw [hd]; exact hn)
+  have hne : P.R ≠ [] := by
+    intro hc; rw [hc] at hq; simp at hq; omega
+  obtain ⟨m, hm, hmR, hsil⟩ := first_running_leader slot ty n hn P.R hRn hne 1
+  refine ⟨m, hm, hmR, hsil, ?_⟩
+  intro s hp acts s' hs
+  have hrot := rot_rel hd harm hR hn hq hinp (ρ0 := 1) (Nat.le_refl 1) E0 σ B0 hσ (m := m) (by omega)
+    (fun k hk => hfit (1 + k) (by omega) (by omega)) hmR hsil
+  exact rot_decides_inv hrot (poised1_rinv (hrot.hyp 0 (Nat.zero_le _)) hp) acts hs
 
 /-! ### The production round timers -/
 
@@ -211,9 +275,44 @@ theorem timed_rotation_eager (slot ty n fifo : Nat) (P : TParams)
   obtain ⟨m, hm, hmR, hsil⟩ := first_running_leader slot ty n hn P.R hRn hne ρ0
   refine ⟨m, hm, hmR, hsil, ?_⟩
   intro s hp acts s' hs
-  have hrot := rot_eager hd hk hg hsd harm hR hn hq hinp hρ0 E0 σ0 B0 hσ (m := m) (by omega)
+  have hrot := rot_eager hd hk hg hsd harm hR hn hq hinp (ρ0 := ρ0) (by omega) E0 σ0 B0 hσ (m := m) (by omega)
     hfit0 hfit hmR hsil
   obtain ⟨h1, h2, h3⟩ := rot_decides hrot hp acts hs
+  refine ⟨h1, h2, fun hlate => h3 ?_⟩
+  unfold eagerT
+  split
+  · rename_i h0; rw [if_pos h0] at hlate; exact hlate
+  · rename_i h0; rw [if_neg h0] at hlate; simpa using hlate
+
+/-- **The same from the start of the instance** (`ρ0 = 1`) under the slot-aligned eager timer: the
+running members are called at instants in `[E0, E0 + σ0]`, `σ0 ≤ lo`, at least `σ0 + 4·δ` before the
+aligned end of round 1 (`Poised1`: their round-1 timers are all due at `eagerEnd 1`); from round 2 on
+the entries are simultaneous. -/
+theorem timed_from_start_eager (slot ty n fifo : Nat) (P : TParams)
+    (hd : P.d = rotDef slot ty n fifo) (c : RoundTimer.Cfg) (pt : Bool) (hk : c.kind = .eager)
+    (g : Nat) (hg : c.genesis = some g) (hsd : 0 < c.slotDur) (harm : P.arm = prodTimer c pt)
+    (hR : P.R.Nodup) (hRn : ∀ p ∈ P.R, p < n) (hn : 1 ≤ n) (hq : P.d.quorum ≤ P.R.length)
+    (hinp : ∀ p ∈ P.R, P.inp p ≠ 0) (E0 σ0 B0 : Nat) (hσ : σ0 ≤ P.lo) (hfifo : B0 + n + 3 ≤ fifo)
+    (hfit0 : E0 + σ0 + 4 * P.hi < eagerEnd c pt g 1) (hfit : 4 * P.hi < 1000000000) :
+    ∃ m, m < n ∧ leaderFn slot ty (1 + m) n ∈ P.R ∧
+      (∀ k, k < m → leaderFn slot ty (1 + k) n ∉ P.R) ∧
+      ∀ (s : TState), Poised1 P (rotG slot ty n P.inp 1 0) (eagerT c pt g 1 E0 σ0 B0 0) s →
+      ∀ (acts : List TAct) (s' : TState), texec P s acts = some s' →
+        (∀ p ∈ P.R, noFault (s'.node p).outs = true ∧ (s'.node p).st.dead = false) ∧
+        (∀ p ∈ P.R, (s'.node p).st.qCommit ≠ [] →
+          GoodOutcome (P.inp (leaderFn slot ty (1 + m) n)) (1 + m) ((s'.node p).st, (s'.node p).outs)) ∧
+        ((if m = 0 then E0 + σ0 else eagerEnd c pt g (1 + m - 1)) + 4 * P.hi < s'.now →
+          ∀ p ∈ P.R,
+            GoodOutcome (P.inp (leaderFn slot ty (1 + m) n)) (1 + m) ((s'.node p).st, (s'.node p).outs)) := by
+  have hq1 : 1 ≤ P.d.quorum := quorum_pos P.d (by rw [hd]; exact hn)
+  have hne : P.R ≠ [] := by
+    intro hc; rw [hc] at hq; simp at hq; omega
+  obtain ⟨m, hm, hmR, hsil⟩ := first_running_leader slot ty n hn P.R hRn hne 1
+  refine ⟨m, hm, hmR, hsil, ?_⟩
+  intro s hp acts s' hs
+  have hrot := rot_eager hd hk hg hsd harm hR hn hq hinp (ρ0 := 1) (Nat.le_refl 1) E0 σ0 B0 hσ (m := m)
+    (by omega) hfit0 hfit hmR hsil
+  obtain ⟨h1, h2, h3⟩ := rot_decides_inv hrot (poised1_rinv (hrot.hyp 0 (Nat.zero_le _)) hp) acts hs
   refine ⟨h1, h2, fun hlate => h3 ?_⟩
   unfold eagerT
   split
@@ -238,19 +337,187 @@ theorem timed_rotation_any_timer (P : TParams) (Gs : Nat → Rd) (Ts : Nat → T
       ∀ p ∈ P.R, GoodOutcome (Gs m).v (Gs m).ρ ((s'.node p).st, (s'.node p).outs)) :=
   rot_decides hrot hp acts hs
 
-/-! ### Non-vacuity: 4 members, member 0 down, the production `increasing` timer
+/-! ### Non-vacuity: 4 members under the production `increasing` timer
 
-Slot 10, duty type 0: the leaders of rounds 2, 3 are members 0 (down) and 1. Attester duty under the
-`increasing` timer: round 2 lasts 1.25 s, round 3 1.5 s (`C04Timer.inc_closed`). δ = `hi` = 100 ms,
-`lo` = 0, `σ` = 0. The members were called at instant 0 and sit in round 1 (what was sent in round 1
-is lost), their round-1 timers are due at 1 s. Bound of `timed_decides_within_rotation`:
-1 s + 1.25 s + 0 + 4 · 100 ms = 2.65 s. -/
+Attester duty (type 2) under the `increasing` timer: rounds 1, 2, 3 last 1 s, 1.25 s, 1.5 s
+(`C04Timer.inc_closed`). δ = `hi` = 100 ms, `lo` = 0, `σ` = 0, proposals `7 + p`.
+`finalOk R v r bound x`: `x` is a state (every action of the execution was enabled), its clock is at
+most `bound` and every member of `R` has `GoodOutcome v r`. All evaluated by the kernel. -/
 
 namespace C04TimedEx
+
+def finalOk (R : List Nat) (v r bound : Nat) : Option TState → Bool
+  | none => false
+  | some s => decide (s.now ≤ bound) &&
+      decide (∀ p ∈ R, GoodOutcome v r ((s.node p).st, (s.node p).outs))
+
+/-- what was delivered to member `p`, as message types, in delivery order. -/
+def rcvdTypes (p : Nat) : Option TState → List Nat
+  | none => []
+  | some s => (s.node p).rcvd.map (·.core.typ)
+
+/-- the upon-rules member `p` has fired, in order. -/
+def rulesOf (p : Nat) : Option TState → List Nat
+  | none => []
+  | some s => (s.node p).outs.filterMap (fun o => match o with | .rule r _ => some r | _ => none)
+
+-- the timing hypothesis `σ + 4·δ < timeout ρ` holds for all rounds (shortest timeout 1 s) …
+example : 0 + 4 * 100000000 < RoundTimer.shortest .inc 2 false := by decide
+example : relTimer (RoundTimer.incTimeout 2 false) =
+    prodTimer { kind := .inc, dutyType := 2, slot := 10, genesis := none, slotDur := 0 } false := by
+  rw [prodTimer_rel _ _ (by decide)]; rfl
+-- … and the arithmetic is tight: δ = 250 ms does not fit into round 1 (1 s)
+example : ¬ (0 + 4 * 250000000 < RoundTimer.incTimeout 2 false 1) := by decide
+
+/-! #### A. The round-1 leader is down (slot 11: leaders of rounds 1, 2 are members 0, 1)
+
+From the cluster in which nobody has been called yet: `start` at members 1, 2, 3 at instant 0 (the
+model's `start` action arms the round-1 timers: due at 1 s). Nothing at all is sent in round 1.
+`timed_good_round` with `ρ = 2`, `E = 1 s`: everybody decides member 1's proposal 8 by
+1 s + 0 + 4 · 100 ms = 1.4 s. -/
+
+def P4a : TParams :=
+  { d := rotDef 11 0 4 100, R := [1, 2, 3], lo := 0, hi := 100000000,
+    arm := relTimer (RoundTimer.incTimeout 2 false), inp := fun p => 7 + p }
+
+def sInit : TState := { now := 0, node := fun p => { st := { proc := p } } }
+
+/-- the cluster after the three `start` actions. -/
+def sA : TState := (texec P4a sInit [.start 1, .start 2, .start 3]).getD sInit
+
+theorem sA_poised :
+    Poised P4a ⟨2, 8, 1⟩ ⟨1000000000, 0, 1000000000 + RoundTimer.incTimeout 2 false 2, 0, 0⟩ sA := by
+  have hnet : sA.net = [] := List.isEmpty_iff.mp (by decide)
+  have hlog : sA.log = [] := List.isEmpty_iff.mp (by decide)
+  refine ⟨hnet, by decide, ?_, (by rw [hlog]; intro m hm; cases hm), (by intro a; rw [hlog]; simp), ?_⟩
+  · intro p hp
+    have hp' : p = 1 ∨ p = 2 ∨ p = 3 := by simpa [P4a] using hp
+    have : (sA.node p).rcvd = [] := by
+      rcases hp' with rfl | rfl | rfl <;> exact List.isEmpty_iff.mp (by decide)
+    rw [this, hlog]
+  · intro p hp
+    have hp' : p = 1 ∨ p = 2 ∨ p = 3 := by simpa [P4a] using hp
+    have hrc : (sA.node p).rcvd = [] := by
+      rcases hp' with rfl | rfl | rfl <;> exact List.isEmpty_iff.mp (by decide)
+    have hbuf : (sA.node p).st.buffer = [] := by
+      rcases hp' with rfl | rfl | rfl <;> exact List.isEmpty_iff.mp (by decide)
+    refine ⟨1000000000, ?_, ?_, by decide, by decide, ?_, ?_⟩
+    · refine ⟨(by decide), ?_, ?_, ?_, (by rw [hrc]; intro x hx; cases hx), ?_, ?_, ?_, ?_⟩
+      · rcases hp' with rfl | rfl | rfl <;>
+          exact ⟨by decide, by decide, by decide, List.isEmpty_iff.mp (by decide), by decide, by decide⟩
+      · rcases hp' with rfl | rfl | rfl <;> decide
+      · rw [hbuf, hrc]; exact bufIs_nil
+      · rcases hp' with rfl | rfl | rfl <;> decide
+      · rcases hp' with rfl | rfl | rfl <;> decide
+      · rcases hp' with rfl | rfl | rfl <;> exact List.isEmpty_iff.mp (by decide)
+      · rcases hp' with rfl | rfl | rfl <;> decide
+    · rcases hp' with rfl | rfl | rfl <;> decide
+    · intro r hr
+      have hf : (sA.node p).firsts = [(1, 1000000000)] := by
+        rcases hp' with rfl | rfl | rfl <;> decide
+      have hr' : 2 ≤ r := hr
+      rw [hf]
+      simp only [RoundTimer.lookup]
+      rw [if_neg (by omega)]
+    · rcases hp' with rfl | rfl | rfl <;>
+        exact ⟨by decide, List.isEmpty_iff.mp (by decide)⟩
+
+-- the hypotheses of `timed_good_round` hold …
+example : ∀ (acts : List TAct) (s' : TState), texec P4a sA acts = some s' →
+    1000000000 + 0 + 4 * 100000000 < s'.now →
+    ∀ p ∈ P4a.R, GoodOutcome 8 2 ((s'.node p).st, (s'.node p).outs) := fun acts s' hs =>
+  (timed_good_round P4a (RoundTimer.incTimeout 2 false) rfl ⟨2, 8, 1⟩ 1000000000 0 0
+    (by decide) (by decide) (by decide) (by decide) (by decide) (by decide) (by decide) (by decide)
+    (by decide) (by decide) (by decide) sA sA_poised acts s' hs).2
+
+/-- … and here is an execution (short, varying latencies and oracles; at member 2 two PREPAREs arrive
+before the PRE-PREPARE and a COMMIT before the last PREPARE). -/
+def schedA : List TAct :=
+  [.tick 1000000000, .fire 1, .fire 2, .fire 3, .tick 1, .deliver 1 ⟨[0, 3], 3⟩,
+    .deliver 5 ⟨[1, 1], 4⟩, .deliver 2 ⟨[2, 2], 3⟩, .tick 23000000, .tick 23000000,
+    .deliver 1 ⟨[1, 0], 2⟩, .tick 23000000, .deliver 1 ⟨[3, 1], 1⟩, .deliver 0 ⟨[0, 1], 3⟩,
+    .deliver 2 ⟨[1, 3], 2⟩, .deliver 0 ⟨[2, 0], 2⟩, .deliver 0 ⟨[3, 0], 0⟩, .tick 1,
+    .deliver 2 ⟨[1, 2], 3⟩, .deliver 0 ⟨[2, 3], 2⟩, .tick 23000000, .deliver 5 ⟨[0, 3], 0⟩,
+    .tick 23000000, .tick 23000000, .deliver 5 ⟨[3, 2], 2⟩, .deliver 4 ⟨[0, 2], 4⟩,
+    .deliver 1 ⟨[1, 0], 1⟩, .tick 23000000, .deliver 1 ⟨[3, 1], 1⟩, .deliver 0 ⟨[0, 1], 3⟩,
+    .deliver 0 ⟨[1, 3], 3⟩, .tick 1, .deliver 2 ⟨[3, 0], 2⟩, .deliver 0 ⟨[0, 0], 1⟩,
+    .tick 23000000, .deliver 6 ⟨[2, 3], 3⟩, .deliver 1 ⟨[3, 3], 3⟩, .tick 23000000,
+    .deliver 1 ⟨[1, 1], 1⟩, .tick 23000000, .tick 23000000, .deliver 0 ⟨[0, 2], 2⟩, .tick 8000000,
+    .deliver 4 ⟨[2, 1], 0⟩, .deliver 4 ⟨[3, 1], 4⟩, .deliver 0 ⟨[0, 1], 3⟩, .deliver 0 ⟨[1, 3], 3⟩,
+    .deliver 0 ⟨[2, 0], 1⟩, .deliver 0 ⟨[3, 0], 4⟩]
+
+set_option maxRecDepth 100000 in
+example : finalOk [1, 2, 3] 8 2 1400000000 (texec P4a sInit ([.start 1, .start 2, .start 3] ++ schedA)) = true := by
+  decide
+set_option maxRecDepth 100000 in
+example : rcvdTypes 2 (texec P4a sA schedA) = [4, 4, 4, 2, 2, 1, 3, 2, 3, 3] := by decide
+
+/-! #### A'. The happy path: the round-1 leader runs (slot 10: member 3 leads round 1)
+
+After the three `start` actions the PRE-PREPARE of member 3 is in flight (`Poised1`);
+`timed_good_round_1`: everybody decides member 3's proposal 10 in round 1 by 0 + 0 + 4 · 100 ms. -/
 
 def P4 : TParams :=
   { d := rotDef 10 0 4 100, R := [1, 2, 3], lo := 0, hi := 100000000,
     arm := relTimer (RoundTimer.incTimeout 2 false), inp := fun p => 7 + p }
+
+/-- the cluster after the three `start` actions (slot 10). -/
+def sB : TState := (texec P4 sInit [.start 1, .start 2, .start 3]).getD sInit
+
+theorem sB_poised1 :
+    Poised1 P4 ⟨1, 10, 3⟩ ⟨0, 0, 0 + RoundTimer.incTimeout 2 false 1, 0, 0⟩ sB := by
+  refine ⟨rfl, by decide, Or.inl ⟨by decide, 0, by decide, by decide, by decide, by decide, by decide⟩, ?_⟩
+  intro p hp
+  have hp' : p = 1 ∨ p = 2 ∨ p = 3 := by simpa [P4] using hp
+  refine ⟨⟨?_, ?_, ?_, ?_, ?_, ?_, ?_, ?_⟩, ?_, ?_, 1000000000, 1000000000, ?_, by decide, by decide,
+    by decide, ?_, by decide, ?_⟩
+  · rcases hp' with rfl | rfl | rfl <;>
+      exact ⟨by decide, by decide, by decide, List.isEmpty_iff.mp (by decide), by decide, by decide⟩
+  · rcases hp' with rfl | rfl | rfl <;> decide
+  · rcases hp' with rfl | rfl | rfl <;> exact List.isEmpty_iff.mp (by decide)
+  · rcases hp' with rfl | rfl | rfl <;> decide
+  · rcases hp' with rfl | rfl | rfl <;> decide
+  · rcases hp' with rfl | rfl | rfl <;> decide
+  · rcases hp' with rfl | rfl | rfl <;> exact List.isEmpty_iff.mp (by decide)
+  · rcases hp' with rfl | rfl | rfl <;> decide
+  · rcases hp' with rfl | rfl | rfl <;> exact List.isEmpty_iff.mp (by decide)
+  · rcases hp' with rfl | rfl | rfl <;> exact ⟨by decide, List.isEmpty_iff.mp (by decide)⟩
+  · rcases hp' with rfl | rfl | rfl <;> decide
+  · rcases hp' with rfl | rfl | rfl <;> decide
+  · intro r hr
+    have hf : (sB.node p).firsts = [(1, 1000000000)] := by
+      rcases hp' with rfl | rfl | rfl <;> decide
+    rw [hf]
+    simp only [RoundTimer.lookup]
+    rw [if_neg (by omega)]
+
+example : ∀ (acts : List TAct) (s' : TState), texec P4 sB acts = some s' →
+    0 + 0 + 4 * 100000000 < s'.now →
+    ∀ p ∈ P4.R, GoodOutcome 10 1 ((s'.node p).st, (s'.node p).outs) := fun acts s' hs =>
+  (timed_good_round_1 P4 (RoundTimer.incTimeout 2 false) rfl ⟨1, 10, 3⟩ rfl 0 0 0
+    (by decide) (by decide) (by decide) (by decide) (by decide) (by decide) (by decide)
+    (by decide) (by decide) (by decide) sB sB_poised1 acts s' hs).2
+
+def schedB : List TAct :=
+  [.tick 1, .deliver 1 ⟨[3, 0], 3⟩, .deliver 0 ⟨[0, 0], 1⟩, .tick 23000000, .deliver 5 ⟨[2, 3], 1⟩,
+    .deliver 5 ⟨[3, 3], 4⟩, .tick 23000000, .deliver 4 ⟨[1, 1], 4⟩, .deliver 2 ⟨[2, 2], 3⟩,
+    .deliver 1 ⟨[3, 2], 2⟩, .tick 23000000, .tick 23000000, .deliver 0 ⟨[2, 1], 0⟩, .tick 8000000,
+    .deliver 0 ⟨[0, 1], 1⟩, .tick 23000000, .deliver 2 ⟨[2, 0], 3⟩, .deliver 1 ⟨[3, 0], 3⟩,
+    .tick 23000000, .tick 23000000, .tick 23000000, .deliver 2 ⟨[3, 3], 4⟩, .deliver 2 ⟨[0, 3], 1⟩,
+    .deliver 0 ⟨[1, 1], 0⟩, .deliver 2 ⟨[2, 2], 2⟩, .tick 23000000, .tick 8000000,
+    .deliver 5 ⟨[1, 0], 1⟩, .deliver 0 ⟨[2, 1], 0⟩, .deliver 3 ⟨[3, 1], 2⟩, .deliver 1 ⟨[0, 1], 2⟩,
+    .deliver 1 ⟨[1, 3], 2⟩, .deliver 0 ⟨[2, 0], 4⟩]
+
+set_option maxRecDepth 100000 in
+example : finalOk [1, 2, 3] 10 1 400000000 (texec P4 sInit ([.start 1, .start 2, .start 3] ++ schedB)) = true := by
+  decide
+
+/-! #### B. One silent round, then a good round (slot 10: leaders of rounds 2, 3 are members 0, 1)
+
+The members sit in round 1 (called at instant 0; what was sent in round 1 — member 3 leads it — is
+lost, as in `good_round_r`), their round-1 timers are due at 1 s. Round 2 (leader 0, down) is
+silent and lasts 1.25 s; round 3 decides member 1's proposal 8. Bound of
+`timed_decides_within_rotation`: 1 s + 1.25 s + 0 + 4 · 100 ms = 2.65 s. -/
 
 def nd0 (p : Nat) : TNode :=
   { st := freshNode P4.d p (7 + p) 1
@@ -260,25 +527,19 @@ def nd0 (p : Nat) : TNode :=
 /-- all three running members in round 1, timers due at 1 s, nothing in flight. -/
 def s0 : TState := { now := 0, node := nd0 }
 
--- the timing hypothesis `σ + 4·δ < timeout ρ` holds for all rounds (shortest timeout 1 s) …
-example : 0 + 4 * P4.hi < RoundTimer.shortest .inc 2 false := by decide
-example : P4.arm = prodTimer { kind := .inc, dutyType := 2, slot := 10, genesis := none, slotDur := 0 } false := by
-  rw [prodTimer_rel _ _ (by decide)]; rfl
--- … it is tight in the sense of the arithmetic: δ = 250 ms does not fit into round 1 (1 s)
-example : ¬ (0 + 4 * 250000000 < RoundTimer.incTimeout 2 false 1) := by decide
--- the leaders of rounds 2 and 3, and the cluster hypotheses
 example : leaderFn 10 0 2 4 = 0 ∧ leaderFn 10 0 3 4 = 1 ∧ P4.d.quorum = 3 ∧ P4.R.Nodup ∧
     (∀ p ∈ P4.R, p < 4) ∧ (∀ p ∈ P4.R, P4.inp p ≠ 0) := by decide
 
 /-- the initial cluster is poised for round 2 (entry instants `[1 s, 1 s]`, no old messages). -/
-theorem s0_poised : Poised P4 (rotG 10 0 4 P4.inp 2 0) (rotT (RoundTimer.incTimeout 2 false) 2 1000000000 0 0 0) s0 := by
+theorem s0_poised :
+    Poised P4 (rotG 10 0 4 P4.inp 2 0) (rotT (RoundTimer.incTimeout 2 false) 2 1000000000 0 0 0) s0 := by
   refine ⟨rfl, by decide, fun p _ => List.Perm.refl _, (by intro m hm; cases hm), (by intro a; simp [s0]), ?_⟩
   intro p hp
   have hp' : p = 1 ∨ p = 2 ∨ p = 3 := by simpa [P4] using hp
   refine ⟨1000000000, ?_, rfl, by decide, by decide, ?_, ?_⟩
   · have hbuf : ∀ q, q = 1 ∨ q = 2 ∨ q = 3 → (s0.node q).st.buffer = [] := by
       intro q hq; rcases hq with rfl | rfl | rfl <;> decide
-    refine ⟨?_, ?_, ?_, (by intro x hx; cases hx), ?_, ?_, ?_, ?_⟩
+    refine ⟨(by decide), ?_, ?_, ?_, (by intro x hx; cases hx), ?_, ?_, ?_, ?_⟩
     · rcases hp' with rfl | rfl | rfl <;> exact ⟨by decide, by decide, by decide, by decide, by decide, by decide⟩
     · rcases hp' with rfl | rfl | rfl <;> decide
     · rw [hbuf p hp']; exact bufIs_nil
@@ -352,27 +613,98 @@ def schedEarly : List TAct :=
     .deliver 2 ⟨[2, 1], 1⟩, .deliver 1 ⟨[3, 1], 3⟩, .deliver 0 ⟨[0, 1], 3⟩, .deliver 0 ⟨[1, 3], 2⟩,
     .tick 1, .deliver 1 ⟨[3, 0], 0⟩, .deliver 0 ⟨[0, 0], 2⟩, .deliver 0 ⟨[1, 2], 2⟩]
 
-/-- the execution exists, ends at or before `bound`, and every running member has `GoodOutcome v r`. -/
-def finalOk (v r bound : Nat) : Option TState → Bool
-  | none => false
-  | some s => decide (s.now ≤ bound) &&
-      decide (∀ p ∈ ([1, 2, 3] : List Nat), GoodOutcome v r ((s.node p).st, (s.node p).outs))
-
-/-- what was delivered to member `p`, as message types, in delivery order. -/
-def rcvdTypes (p : Nat) : Option TState → List Nat
-  | none => []
-  | some s => (s.node p).rcvd.map (·.core.typ)
-
--- both executions are executions of the model (every action enabled), everybody decides member 1's
--- proposal 8 in round 3, and the last decision falls exactly on resp. before the bound 2.65 s
+-- both are executions of the model, everybody decides member 1's proposal 8 in round 3, and the last
+-- decision falls exactly on resp. before the bound 2.65 s
 set_option maxRecDepth 100000 in
-example : finalOk 8 3 2650000000 (texec P4 s0 schedLate) = true := by decide
+example : finalOk [1, 2, 3] 8 3 2650000000 (texec P4 s0 schedLate) = true := by decide
 set_option maxRecDepth 100000 in
-example : finalOk 8 3 2650000000 (texec P4 s0 schedEarly) = true := by decide
+example : finalOk [1, 2, 3] 8 3 2650000000 (texec P4 s0 schedEarly) = true := by decide
 -- in the second one the phases overlap at member 2: two PREPAREs (type 2) arrive before the
 -- PRE-PREPARE (type 1), and COMMITs (type 3) before the last PREPARE
 set_option maxRecDepth 100000 in
 example : rcvdTypes 2 (texec P4 s0 schedEarly) = [4, 4, 4, 4, 4, 4, 2, 2, 1, 3, 3, 2, 3] := by decide
+
+/-! #### C. A slow member decides on a DECIDED (all four members run, slot 10: member 0 leads round 2)
+
+Everything to and from member 3 takes the full 100 ms, everything else 1 ns: members 0, 1, 2 decide
+among themselves within 4 ns; member 3's ROUND-CHANGE reaches them 100 ms later, they answer with
+DECIDED (type 5), and member 3 decides by rule 7 (`UponJustifiedDecided`) without ever having sent a
+COMMIT — within the bound 1 s + 4 · 100 ms all the same. -/
+
+def P5 : TParams :=
+  { d := rotDef 10 0 4 100, R := [0, 1, 2, 3], lo := 0, hi := 100000000,
+    arm := relTimer (RoundTimer.incTimeout 2 false), inp := fun p => 7 + p }
+
+def s5 : TState :=
+  { now := 0
+    node := fun p =>
+      { st := freshNode P5.d p (7 + p) 1
+        outs := (run P5.d {} { proc := p } (.start :: inputEvents (7 + p))).2
+        timer := some 1000000000, firsts := [(1, 1000000000)] } }
+
+def schedDecided : List TAct :=
+  [.tick 1000000000, .fire 0, .fire 1, .fire 2, .fire 3, .tick 1, .deliver 0 ⟨[], 0⟩,
+    .deliver 0 ⟨[], 0⟩, .deliver 0 ⟨[], 0⟩, .deliver 1 ⟨[], 0⟩, .deliver 1 ⟨[], 0⟩,
+    .deliver 1 ⟨[], 0⟩, .deliver 2 ⟨[], 0⟩, .deliver 2 ⟨[], 0⟩, .deliver 2 ⟨[], 0⟩, .tick 1,
+    .deliver 7 ⟨[], 0⟩, .deliver 7 ⟨[], 0⟩, .deliver 7 ⟨[], 0⟩, .tick 1, .deliver 8 ⟨[], 0⟩,
+    .deliver 8 ⟨[], 0⟩, .deliver 8 ⟨[], 0⟩, .deliver 9 ⟨[], 0⟩, .deliver 9 ⟨[], 0⟩,
+    .deliver 9 ⟨[], 0⟩, .deliver 10 ⟨[], 0⟩, .deliver 10 ⟨[], 0⟩, .deliver 10 ⟨[], 0⟩, .tick 1,
+    .deliver 11 ⟨[], 0⟩, .deliver 11 ⟨[], 0⟩, .deliver 11 ⟨[], 0⟩, .deliver 12 ⟨[], 0⟩,
+    .deliver 12 ⟨[], 0⟩, .deliver 12 ⟨[], 0⟩, .deliver 13 ⟨[], 0⟩, .deliver 13 ⟨[], 0⟩,
+    .deliver 13 ⟨[], 0⟩, .tick 99999996, .deliver 0 ⟨[], 0⟩, .deliver 0 ⟨[], 0⟩,
+    .deliver 0 ⟨[], 0⟩, .deliver 0 ⟨[], 0⟩, .deliver 0 ⟨[], 0⟩, .deliver 0 ⟨[], 0⟩,
+    .deliver 0 ⟨[], 0⟩, .tick 1, .deliver 0 ⟨[], 0⟩, .deliver 6 ⟨[], 0⟩, .deliver 6 ⟨[], 0⟩,
+    .deliver 6 ⟨[], 0⟩, .deliver 6 ⟨[], 0⟩, .deliver 6 ⟨[], 0⟩, .deliver 6 ⟨[], 0⟩,
+    .deliver 6 ⟨[], 0⟩, .deliver 6 ⟨[], 0⟩, .deliver 6 ⟨[], 0⟩, .deliver 6 ⟨[], 0⟩,
+    .deliver 6 ⟨[], 0⟩, .deliver 6 ⟨[], 0⟩, .tick 1, .deliver 0 ⟨[], 0⟩, .deliver 0 ⟨[], 0⟩,
+    .deliver 0 ⟨[], 0⟩, .tick 1, .deliver 0 ⟨[], 0⟩, .deliver 0 ⟨[], 0⟩, .deliver 0 ⟨[], 0⟩,
+    .tick 99999998, .deliver 0 ⟨[], 0⟩, .deliver 0 ⟨[], 0⟩, .deliver 0 ⟨[], 0⟩, .deliver 0 ⟨[], 0⟩]
+
+set_option maxRecDepth 100000 in
+example : finalOk [0, 1, 2, 3] 7 2 1400000000 (texec P5 s5 schedDecided) = true := by decide
+set_option maxRecDepth 100000 in
+example : rulesOf 3 (texec P5 s5 schedDecided) = [1, 7] ∧
+    rcvdTypes 3 (texec P5 s5 schedDecided) = [4, 4, 4, 4, 1, 5, 5, 5, 2, 2, 2, 3, 3, 3, 2] := by decide
+
+/-! #### D. The slot-aligned eager timer (`C04Timer.exAtt`: attester duty of slot 10, 12 s slots)
+
+`dutyStart` = 124.000001 s; the members armed round 1 at the duty start (aligned end 125.000001 s).
+Round 2 (leader 0, down) ends at its aligned end 126.000001 s at all members at once, round 3
+decides: bound `eagerEnd 2 + 4·δ` = 126.400001 s, attained when every message takes 100 ms. -/
+
+def P4e : TParams :=
+  { d := rotDef 10 0 4 100, R := [1, 2, 3], lo := 0, hi := 100000000,
+    arm := prodTimer RoundTimer.exAtt false, inp := fun p => 7 + p }
+
+def s0e : TState :=
+  { now := 124000001000
+    node := fun p =>
+      { st := freshNode P4e.d p (7 + p) 1
+        outs := (run P4e.d {} { proc := p } (.start :: inputEvents (7 + p))).2
+        timer := some 125000001000, firsts := [(1, 125000001000)] } }
+
+-- the timing hypotheses of `timed_rotation_eager` (ρ0 = 2, E0 = aligned end of round 1, σ0 = 0)
+example : eagerEnd RoundTimer.exAtt false 1000 1 = 125000001000 ∧
+    eagerEnd RoundTimer.exAtt false 1000 2 = 126000001000 ∧
+    125000001000 + 0 + 4 * P4e.hi < eagerEnd RoundTimer.exAtt false 1000 2 ∧
+    4 * P4e.hi < 1000000000 := by decide
+
+def schedEager : List TAct :=
+  [.tick 1000000000, .fire 1, .fire 2, .fire 3, .tick 100000000, .deliver 0 ⟨[], 0⟩,
+    .deliver 0 ⟨[], 0⟩, .deliver 0 ⟨[], 0⟩, .deliver 0 ⟨[], 0⟩, .deliver 0 ⟨[], 0⟩,
+    .deliver 0 ⟨[], 0⟩, .deliver 0 ⟨[], 0⟩, .deliver 0 ⟨[], 0⟩, .deliver 0 ⟨[], 0⟩,
+    .tick 900000000, .fire 1, .fire 2, .fire 3, .tick 100000000, .deliver 0 ⟨[], 0⟩,
+    .deliver 0 ⟨[], 0⟩, .deliver 0 ⟨[], 0⟩, .deliver 0 ⟨[], 0⟩, .deliver 0 ⟨[], 0⟩,
+    .deliver 0 ⟨[], 0⟩, .deliver 0 ⟨[], 0⟩, .deliver 0 ⟨[], 0⟩, .deliver 0 ⟨[], 0⟩,
+    .tick 100000000, .deliver 0 ⟨[], 0⟩, .deliver 0 ⟨[], 0⟩, .deliver 0 ⟨[], 0⟩, .tick 100000000,
+    .deliver 0 ⟨[], 0⟩, .deliver 0 ⟨[], 0⟩, .deliver 0 ⟨[], 0⟩, .deliver 0 ⟨[], 0⟩,
+    .deliver 0 ⟨[], 0⟩, .deliver 0 ⟨[], 0⟩, .deliver 0 ⟨[], 0⟩, .deliver 0 ⟨[], 0⟩,
+    .deliver 0 ⟨[], 0⟩, .tick 100000000, .deliver 0 ⟨[], 0⟩, .deliver 0 ⟨[], 0⟩,
+    .deliver 0 ⟨[], 0⟩, .deliver 0 ⟨[], 0⟩, .deliver 0 ⟨[], 0⟩, .deliver 0 ⟨[], 0⟩,
+    .deliver 0 ⟨[], 0⟩, .deliver 0 ⟨[], 0⟩, .deliver 0 ⟨[], 0⟩]
+
+set_option maxRecDepth 100000 in
+example : finalOk [1, 2, 3] 8 3 126400001000 (texec P4e s0e schedEager) = true := by decide
 
 end C04TimedEx
 
